@@ -1061,7 +1061,17 @@ func (c *Conn) handleBdat(arg string) {
 		// the whole chunk.
 		io.Copy(ioutil.Discard, chunk)
 
-		c.writeResponse(dataErrorToStatus(err))
+		if last && c.server.LMTP {
+			// The final reply still is one reply per recipient. No more
+			// data will come: let the backend finish first, it may still
+			// be setting statuses.
+			c.bdatPipe.CloseWithError(err)
+			<-c.dataResult
+			c.bdatStatus.fillRemaining(err)
+			c.writeBdatStatuses()
+		} else {
+			c.writeResponse(dataErrorToStatus(err))
+		}
 
 		if err == errPanic {
 			c.Close()
@@ -1082,10 +1092,7 @@ func (c *Conn) handleBdat(arg string) {
 
 		if c.server.LMTP {
 			c.bdatStatus.fillRemaining(err)
-			for i, rcpt := range c.recipients {
-				code, enchCode, msg := dataErrorToStatus(<-c.bdatStatus.status[i])
-				c.writeResponse(code, enchCode, "<"+rcpt+"> "+msg)
-			}
+			c.writeBdatStatuses()
 		} else {
 			c.writeResponse(dataErrorToStatus(err))
 		}
@@ -1098,6 +1105,15 @@ func (c *Conn) handleBdat(arg string) {
 		c.reset()
 	} else {
 		c.writeResponse(250, EnhancedCode{2, 0, 0}, "Continue")
+	}
+}
+
+// writeBdatStatuses sends the final LMTP reply to BDAT LAST: one reply per
+// recipient, taken from the status collector.
+func (c *Conn) writeBdatStatuses() {
+	for i, rcpt := range c.recipients {
+		code, enchCode, msg := dataErrorToStatus(<-c.bdatStatus.status[i])
+		c.writeResponse(code, enchCode, "<"+rcpt+"> "+msg)
 	}
 }
 
